@@ -67,7 +67,7 @@ func c12Candidate(t *rapid.T, label string, wantValid bool) ([]byte, string) {
 
 func TestVerif_C12_GenerateKey(t *testing.T) {
 	rec := stats.Get("C12", "generatekey")
-	rec.Rule("rapid: randomness stream = 0..4 out-of-range 32-byte candidates (0, n-1, n, n+1, 2^256-1, uniform >= n-1) followed by a valid one (uniform, 1, 2, n-2, n-3, leading zeros) and 0..40 trailing bytes; the reader delivers whole requests or short reads of 1/7/16/31 bytes. Oracle: GenerateKey returns err=nil, priv = the first candidate in [1,n-2], exactly 32 bytes consumed per candidate, (x,y) = sm2ref.Mul(d,G) as 32-byte strings; no panic. Non-trivial: at least one rejected candidate or a boundary key; distinct by stream.")
+	rec.Rule("rapid: randomness stream = 0..4 (occasionally 10..4000 identical) out-of-range 32-byte candidates (0, n-1, n, n+1, 2^256-1, uniform >= n-1) followed by a valid one (uniform, 1, 2, n-2, n-3, leading zeros) and 0..40 trailing bytes; the reader delivers whole requests or short reads of 1/7/16/31 bytes. Oracle: GenerateKey returns err=nil, priv = the first candidate in [1,n-2], exactly 32 bytes consumed per candidate, (x,y) = sm2ref.Mul(d,G) as 32-byte strings; no panic. Non-trivial: at least one rejected candidate or a boundary key; distinct by stream.")
 	t.Cleanup(stats.FlushAll)
 	rapid.Check(t, func(t *rapid.T) {
 		nrej := gen.Int(t, "nrej", 0, 4)
@@ -76,13 +76,23 @@ func TestVerif_C12_GenerateKey(t *testing.T) {
 		}
 		var stream []byte
 		var cls []string
-		for i := 0; i < nrej; i++ {
-			b, c := c12Candidate(t, fmt.Sprintf("rej%d", i), false)
-			stream = append(stream, b...)
-			cls = append(cls, c)
+		if gen.Int(t, "many", 0, 19) == 0 {
+			// a long run of rejected candidates (a stuck or biased source): the loop must keep redrawing
+			nrej = []int{10, 100, 999, 1000, 1001, 1500, 4000}[gen.Uniform(t, "manyN", 0, 6)]
+			b, c := c12Candidate(t, "rejmany", false)
+			for i := 0; i < nrej; i++ {
+				stream = append(stream, b...)
+			}
+			cls = append(cls, c, "many-rejected")
+		} else {
+			for i := 0; i < nrej; i++ {
+				b, c := c12Candidate(t, fmt.Sprintf("rej%d", i), false)
+				stream = append(stream, b...)
+				cls = append(cls, c)
+			}
 		}
 		good, gc := c12Candidate(t, "good", true)
-		cls = append(cls, gc, fmt.Sprintf("rejected:%d", nrej))
+		cls = append(cls, gc, fmt.Sprintf("rejected:%d", min(nrej, 5)))
 		stream = append(stream, good...)
 		r := gen.Rand(t, "trail")
 		stream = append(stream, gen.RandBytes(r, gen.Int(t, "trailing", 0, 40))...)
